@@ -271,8 +271,8 @@ def r3(ctx):
     C06.r4(sub)
     n = 0
     for o in sub.obligations:
-        if "transaction-body-fails" not in o["key"]:
-            continue
+        if "transaction-body-fails" not in o["key"] and "store-dropped" not in o["key"]:
+            continue        # ("the list survives reopening the store": a store going out of scope commits its open transaction)
         o = dict(o)
         o["key"] = o["key"].replace("C06.R4", "C17.R3")
         o["rule"] = "C17.R3"
